@@ -235,4 +235,7 @@ fire("C06", "ngram-guard-strict", "R6.3", E(NG, "ngrams_of", "if i + ngram_size 
 fire("C16", "cap-off-by-one", "R16.6", E(MG, "lempel_ziv_based_encode", "elif current_size >= max_size:", "elif current_size > max_size:"), "the dictionary can hold one phrase more than max_dict_size")
 silent("C04", "trigger-ge", E(COO, "coo_append", "    if coo.ind[0] == coo.key.shape[0] - 1:", "    if coo.ind[0] >= coo.key.shape[0] - 1:"), ">= instead of == in the buffer-full test")
 
+fire("C06", "skipgram-decode-dict-size", "R6.2", E(SG, "SkipgramVectorizer.fit", "n_encoded_tokens = len(self._window_sizes) - 1", "n_encoded_tokens = len(self._token_dictionary_)"), "revert of 54088bc")
+silent("C06", "skipgram-decode-freq-len", E(SG, "SkipgramVectorizer.fit", "n_encoded_tokens = len(self._window_sizes) - 1", "n_encoded_tokens = len(self._token_frequencies_)"), "same number written through the frequency table (needs the derived length fact)")
+
 VARIANTS = V
